@@ -371,6 +371,20 @@ def _skeletonize(tier, seed):
         for e in range(rng.randint(0, 2)):       # extra links: loops, possibly parallel to an existing pipe
             a, b = rng.sample(names[1:], 2)
             wn.add_pipe("X%d" % e, a, b, length=80.0, diameter=rng.choice([3 * inch, 10 * inch]), roughness=100)
+        if k % 2 == 1:                           # a parallel twin of an existing pipe, in either registration order relative to the protected one
+            base = wn.get_link("P%d" % rng.randrange(1, n))
+            wn.add_pipe("TWIN", base.start_node_name, base.end_node_name, length=base.length, diameter=rng.choice([3 * inch, 10 * inch]), roughness=100)
+        if k % 3 != 0:                           # small valves: one feeding a dead end, one in line (valves are never candidates for removal)
+            vt = ("TCV", "FCV", "PRV")[k % 3]
+            wn.add_junction("VD", base_demand=0.0005, elevation=10.0, coordinates=(n + 2, 1))
+            wn.add_valve("VDEAD", rng.choice(names[1:]), "VD", diameter=3 * inch, valve_type=vt, initial_setting=(0.001 if vt == "FCV" else 5.0))
+            a, b = rng.sample(names[1:], 2)
+            wn.add_valve("VLINE", a, b, diameter=3 * inch, valve_type="TCV", initial_setting=5.0)
+        from wntr.network.controls import Control, ControlAction, SimTimeCondition
+        pipes = list(wn.pipe_name_list)
+        for c in range(rng.randint(0, 2)):       # controls protect the elements they mention
+            pn = rng.choice(pipes[1:]) if c or "TWIN" not in pipes else rng.choice(["TWIN", pipes[1]])
+            wn.add_control("ctl%d" % c, Control(SimTimeCondition(wn, "==", 1800 * (c + 1)), ControlAction(wn.get_link(pn), "status", 0)))
         return wn
     ngen = 12 if tier == "quick" else 60
     nets = list(nets) + ["generated:%d" % k for k in range(ngen)]
@@ -381,11 +395,19 @@ def _skeletonize(tier, seed):
             for r in c.requires():
                 ctrl_elems.add(r.name)
         ed0 = wntr.metrics.expected_demand(wn, 0, 6 * 3600, 3600).sum(axis=1)
+        import random as _random
+        import zlib as _zlib
+        xr = _random.Random(_zlib.crc32(rel.encode()) % 1000 + seed)
         for thr in (4 * inch, 8 * inch, 12 * inch, 24 * inch):
             for opts in ((True, True, True), (True, False, False), (False, True, False), (False, False, True)):
+                # a user-supplied exclusion list (generated networks): those pipes / junctions must survive unaltered
+                excl_p = sorted(xr.sample(list(wn.pipe_name_list), min(2, wn.num_pipes))) if rel.startswith("generated:") and xr.random() < 0.6 else []
+                excl_j = sorted(xr.sample(list(wn.junction_name_list), 1)) if rel.startswith("generated:") and xr.random() < 0.4 else []
+                before = {pn: (wn.get_link(pn).diameter, wn.get_link(pn).length, wn.get_link(pn).roughness, wn.get_link(pn).start_node_name, wn.get_link(pn).end_node_name)
+                          for pn in list(excl_p) + [e for e in ctrl_elems if e in wn.pipe_name_list]}
                 try:
                     w2, smap = wntr.morph.skeletonize(wn, thr, branch_trim=opts[0], series_pipe_merge=opts[1], parallel_pipe_merge=opts[2],
-                                                      return_map=True, use_epanet=not rel.startswith("generated:"))
+                                                      return_map=True, use_epanet=not rel.startswith("generated:"), pipes_to_exclude=list(excl_p), junctions_to_exclude=list(excl_j))
                 except Exception as e:
                     failures.append(dict(net=rel, threshold=thr, options=opts, raised=repr(e)[:200]))
                     continue
@@ -394,19 +416,25 @@ def _skeletonize(tier, seed):
                 keep = set(wn.tank_name_list + wn.reservoir_name_list)
                 ok1 = keep <= set(w2.node_name_list) and set(wn.pump_name_list) <= set(w2.link_name_list) and set(wn.valve_name_list) <= set(w2.link_name_list)
                 ok2 = all((e in w2.node_name_list) or (e in w2.link_name_list) for e in ctrl_elems)
+                ok5 = all(pn in w2.pipe_name_list and (w2.get_link(pn).diameter, w2.get_link(pn).length, w2.get_link(pn).roughness, w2.get_link(pn).start_node_name,
+                                                        w2.get_link(pn).end_node_name) == v for pn, v in before.items()) and all(j in w2.junction_name_list for j in excl_j)
+                # the controls of the skeleton act on the skeleton's own elements
+                ok6 = all((w2.get_link(r.name) is r if r.name in w2.link_name_list else (r.name in w2.node_name_list and w2.get_node(r.name) is r))
+                          for _, c in w2.controls() for r in c.requires())
                 ed1 = wntr.metrics.expected_demand(w2, 0, 6 * 3600, 3600).sum(axis=1)
                 ok3 = np.allclose(ed0.values, ed1.values, rtol=1e-9, atol=1e-12)
                 allm = [n for k, v in smap.items() for n in v]
                 ok4 = sorted(allm) == sorted(wn.node_name_list) and len(allm) == len(set(allm)) and \
                     set(k for k, v in smap.items() if v) == set(w2.node_name_list)
                 ok2 = ok2 and all(s_.node_name in w2.node_name_list for _, s_ in w2.sources()) and len(list(w2.sources())) == len(list(wn.sources()))
-                if not (ok1 and ok2 and ok3 and ok4):
-                    failures.append(dict(net=rel, threshold=thr, options=opts, keeps_sources_pumps_valves=ok1, keeps_control_elements=ok2,
-                                         total_demand_conserved=bool(ok3), map_is_partition=ok4))
+                if not (ok1 and ok2 and ok3 and ok4 and ok5 and ok6):
+                    failures.append(dict(net=rel, threshold=thr, options=opts, excluded=[excl_p, excl_j], keeps_sources_pumps_valves=ok1, keeps_control_elements=ok2,
+                                         total_demand_conserved=bool(ok3), map_is_partition=ok4, protected_pipes_and_junctions_unaltered=ok5,
+                                         controls_refer_to_the_skeleton_s_elements=ok6))
                 if len(samples) < 2:
                     samples.append(dict(net=rel, threshold_m=thr, options=opts, nodes_before=wn.num_nodes, nodes_after=w2.num_nodes))
     return dict(evaluations=evals, distinct_nontrivial=len(distinct), failures=failures[:10], samples=samples, exhaustive=False,
-                scope="%s (Net2 carries a quality source on a dead-end junction) x 4 diameter thresholds x 4 operation subsets: tanks/reservoirs/pumps/valves/control elements kept, "
+                scope="%s (Net2 carries a quality source on a dead-end junction) x 4 diameter thresholds x 4 operation subsets (generated networks also with random pipes_to_exclude / junctions_to_exclude, controls on pipes incl. a parallel twin, small valves on dead ends and in line): tanks/reservoirs/pumps/valves/control elements kept, protected pipes unaltered, "
                       "total expected demand per time conserved, skeleton map is a partition of the original nodes onto the retained ones" % (", ".join(n.split('/')[-1] for n in nets if not n.startswith("generated:")) + " and %d generated networks with inflow / zero / multi-entry demands" % ngen))
 
 
